@@ -259,6 +259,12 @@ func encodeLoaded(c *config.Config) (tree, recvs, mutes, tis, rules string) {
 		for k, v := range ir.TargetMatch {
 			p = append(p, "tm:"+k+"="+v)
 		}
+		for k, v := range ir.SourceMatchRE {
+			p = append(p, fmt.Sprintf("smr:%s=%q/%v", k, v.Original, v.Regexp != nil))
+		}
+		for k, v := range ir.TargetMatchRE {
+			p = append(p, fmt.Sprintf("tmr:%s=%q/%v", k, v.Original, v.Regexp != nil))
+		}
 		sort.Strings(p)
 		rl = append(rl, fmt.Sprintf("ir:%v:%v", p, ir.Equal))
 	}
@@ -368,6 +374,9 @@ var tiBodies = []string{
 	"    time_intervals:\n    - weekdays: ['saturday', 'sunday']\n      times:\n      - start_time: '22:30'\n        end_time: '24:00'\n      - start_time: '00:00'\n        end_time: '00:01'\n",
 	"    time_intervals:\n    - days_of_month: ['-3:-1', '1']\n      months: ['january:march', 'december']\n      years: ['2024:2030']\n      location: 'Europe/Berlin'\n",
 	"    time_intervals:\n    - times:\n      - start_time: '23:59'\n        end_time: '24:00'\n      weekdays: ['monday']\n      location: 'UTC'\n",
+	// month numbers are not range-checked by the loader: whatever it accepts must print and load back
+	"    time_intervals:\n    - months: ['13']\n",
+	"    time_intervals:\n    - months: ['0:3', '11:14']\n      years: ['0:9999']\n",
 }
 
 func (c *rawCfg) yaml() string {
@@ -440,6 +449,11 @@ func (c *rawCfg) yaml() string {
 	if c.inhibit > 0 {
 		b.WriteString("inhibit_rules:\n")
 		for i := range c.inhibit {
+			if i == 1 {
+				// the deprecated forms, one regular expression being the empty string (F13)
+				fmt.Fprintf(&b, "- source_match: {severity: 'critical'}\n  source_match_re: {n: ''}\n  target_match_re: {severity: 'warn.*', m%d: ''}\n  equal: ['alertname', 'c%d']\n", i, i)
+				continue
+			}
 			fmt.Fprintf(&b, "- source_matchers: ['severity=\"critical\"', 'n=~\"a%d.*\"']\n  target_matchers: ['severity=\"warning\"']\n  equal: ['alertname', 'c%d']\n", i, i)
 		}
 	}
@@ -675,7 +689,7 @@ func legacyMix(r *rand.Rand, c *rawCfg) {
 	if r.IntN(2) == 0 {
 		n.match = map[string]string{pick(r, labelPool[:3]): "m"}
 	} else {
-		n.matchRE = map[string]string{pick(r, labelPool[:3]): "m.*"}
+		n.matchRE = map[string]string{pick(r, labelPool[:3]): pick(r, []string{"m.*", "m.*", ""})} // an empty expression too (F13)
 	}
 }
 
